@@ -13,42 +13,47 @@ EXTENDS Incr
 
 ---------------------------------------------------------------------------
 (* From-scratch evaluation                                                  *)
-RECURSIVE Eval(_, _, _)
-RECURSIVE EvalRecipe(_, _, _, _)
-RECURSIVE EvalExpert(_, _, _)
+RECURSIVE EvalD(_, _, _, _)
+RECURSIVE EvalRecipe(_, _, _, _, _)
+RECURSIVE EvalExpert(_, _, _, _)
 \* the controlling map node of an expert construction is its first (static) dependency
 CtlOf(s, e) == CHOOSE m \in 1..s.n : s.def[m].k = "map" /\ "ctl" \in DOMAIN s.def[m] /\ s.def[m].ctl.x = e
-                                      /\ s.def[m].ctl.mode \in {"join", "sum"}
-EvalExpert(s, e, env) ==
+                                      /\ s.def[m].ctl.mode \in {"join", "sum", "cell"}
+EvalExpert(s, e, env, dep) ==
   LET m == CtlOf(s, e)
       c == s.def[m].ctl
-      x == Eval(s, s.def[m].ins[1], env) IN
-  CASE c.mode = "join" -> Eval(s, x[2], env)
+      x == EvalD(s, s.def[m].ins[1], env, dep - 1) IN
+  CASE c.mode = "join" -> EvalD(s, x[2], env, dep - 1)
+    [] c.mode = "cell" -> x
     [] c.mode = "sum" ->
          LET RECURSIVE Go(_, _)
-             Go(acc, i) == IF i > x[2] THEN acc ELSE Go((acc + Eval(s, c.ins[i], env)[2]) % K, i + 1)
+             Go(acc, i) == IF i > x[2] THEN acc ELSE Go((acc + EvalD(s, c.ins[i], env, dep - 1)[2]) % K, i + 1)
          IN I(Go(0, 1))
-EvalRecipe(s, rc, v, env) ==
-  CASE rc.r = "pick"  -> Eval(s, rc.alts[v[2] + 1], env)
-    [] rc.r = "ref"   -> Eval(s, v[2], env)
+EvalRecipe(s, rc, v, env, dep) ==
+  CASE rc.r = "pick"  -> EvalD(s, rc.alts[v[2] + 1], env, dep - 1)
+    [] rc.r = "ref"   -> EvalD(s, v[2], env, dep - 1)
     [] rc.r = "const" -> v
-    [] rc.r \in {"map", "chain"} -> F2(rc.f, v, Eval(s, rc.over, env))
-    [] rc.r = "alt"   -> EvalRecipe(s, rc.alts[v[2] + 1], v, env)
-    [] rc.r = "bind"  -> EvalRecipe(s, rc.inner, Eval(s, rc.over, env), env)
-    [] rc.r \in {"junk", "leak"} -> EvalRecipe(s, rc.then, v, env)
+    [] rc.r \in {"map", "chain"} -> F2(rc.f, v, EvalD(s, rc.over, env, dep - 1))
+    [] rc.r = "alt"   -> EvalRecipe(s, rc.alts[v[2] + 1], v, env, dep)
+    [] rc.r = "bind"  -> EvalRecipe(s, rc.inner, EvalD(s, rc.over, env, dep - 1), env, dep)
+    [] rc.r \in {"junk", "leak"} -> EvalRecipe(s, rc.then, v, env, dep)
     [] rc.r = "memo"  -> IF s.memos[rc.m].f = "const" THEN v
-                         ELSE F2(s.memos[rc.m].f, v, Eval(s, s.memos[rc.m].over, env))
-Eval(s, n, env) ==
+                         ELSE F2(s.memos[rc.m].f, v, EvalD(s, s.memos[rc.m].over, env, dep - 1))
+EvalD(s, n, env, dep) ==
+  IF dep <= 0 THEN NoVal ELSE   \* only on (transiently) cyclic graphs
   LET d == s.def[n] IN
   CASE d.k = "var"    -> env[n]
     [] d.k = "const"  -> d.init
-    [] d.k = "map"    -> IF "ctl" \in DOMAIN d THEN Unit ELSE ApplyMap(d, Eval(s, d.ins[1], env))
-    [] d.k = "map2"   -> F2(d.f, Eval(s, d.ins[1], env), Eval(s, d.ins[2], env))
-    [] d.k = "fold"   -> FoldValue(d, [i \in 1..Len(d.ins) |-> Eval(s, d.ins[i], env)])
-    [] d.k \in {"mapref", "mwo"} -> F1(d.f, Eval(s, d.ins[1], env))
+    [] d.k = "map"    -> IF "ctl" \in DOMAIN d THEN Unit ELSE ApplyMap(d, EvalD(s, d.ins[1], env, dep - 1))
+    [] d.k = "map2"   -> F2(d.f, EvalD(s, d.ins[1], env, dep - 1), EvalD(s, d.ins[2], env, dep - 1))
+    [] d.k = "fold"   -> FoldValue(d, [i \in 1..Len(d.ins) |-> EvalD(s, d.ins[i], env, dep - 1)])
+    [] d.k \in {"mapref", "mwo"} -> F1(d.f, EvalD(s, d.ins[1], env, dep - 1))
     [] d.k = "lhs"    -> Unit
-    [] d.k = "main"   -> EvalRecipe(s, s.def[d.lc].recipe, Eval(s, s.def[d.lc].ins[1], env), env)
-    [] d.k = "expert" -> EvalExpert(s, n, env)
+    [] d.k = "main"   -> EvalRecipe(s, s.def[d.lc].recipe, EvalD(s, s.def[d.lc].ins[1], env, dep - 1), env, dep)
+    [] d.k = "expert" -> EvalExpert(s, n, env, dep)
+
+
+Eval(s, n, env) == EvalD(s, n, env, 2 * s.n + 4)
 
 (* Which node does the bind closure return for lhs value v?  0 = a fresh node *)
 RECURSIVE RecipeExisting(_, _)
@@ -78,16 +83,19 @@ DeadRef(s, n) == DeadRefP(s, n, {})
 
 (* Cutoffs that only suppress equal values, i.e. where C01's proviso holds   *)
 ExactCutoff(c) == c.c \in {"eq", "never", "dep", "beq"}
-RECURSIVE ExactCone(_, _)
-ExactCone(s, n) ==
-  LET d == s.def[n] IN
+RECURSIVE ExactConeP(_, _, _)
+ExactCone(s, n) == ExactConeP(s, n, {})
+ExactConeP(s, n, seen) ==
+  IF n \in seen THEN TRUE ELSE
+  LET d == s.def[n]
+      sn == seen \cup {n} IN
   /\ ExactCutoff(s.cutoff[n])
   /\ CASE d.k \in {"var", "const"} -> TRUE
-       [] d.k = "mwo" -> d.mode \in {"ne", "true"} /\ ExactCone(s, d.ins[1])
+       [] d.k = "mwo" -> d.mode \in {"ne", "true"} /\ ExactConeP(s, d.ins[1], sn)
        [] d.k \in {"map", "map2", "fold", "mapref", "lhs"} ->
-            \A i \in 1..Len(d.ins) : ExactCone(s, d.ins[i])
-       [] d.k = "main" -> ExactCone(s, d.lc) /\ (s.rhs[d.lc] = 0 \/ ExactCone(s, s.rhs[d.lc]))
-       [] d.k = "expert" -> \A i \in 1..Len(s.edges[n]) : ExactCone(s, s.edges[n][i].child)
+            \A i \in 1..Len(d.ins) : ExactConeP(s, d.ins[i], sn)
+       [] d.k = "main" -> ExactConeP(s, d.lc, sn) /\ (s.rhs[d.lc] = 0 \/ ExactConeP(s, s.rhs[d.lc], sn))
+       [] d.k = "expert" -> \A i \in 1..Len(s.edges[n]) : ExactConeP(s, s.edges[n][i].child, sn)
        [] OTHER -> FALSE
 
 (* Dependency cone of a set of nodes through the CURRENT bind right-hand sides *)
@@ -120,6 +128,20 @@ RefRead(s, o) ==
 \* (propagation finished) reads show the fully propagated values
 RefReadS(s, o) ==
   IF s.status = "stabilising" THEN <<"err", "CurrentlyStabilising">> ELSE RefRead(s, o)
+
+\* which property a wrong VALUE read by observer o belongs to (expert constructions: C14,
+\* memoised builders: C20, otherwise C01)
+RECURSIVE HasMemo(_)
+HasMemo(rc) == CASE rc.r = "memo" -> TRUE
+                 [] rc.r = "alt" -> \E i \in 1..Len(rc.alts) : HasMemo(rc.alts[i])
+                 [] rc.r \in {"junk", "leak"} -> HasMemo(rc.then)
+                 [] rc.r = "bind" -> HasMemo(rc.inner)
+                 [] OTHER -> FALSE
+ValueTag(s, o) ==
+  LET cone == ConeOf(s, {s.onode[o]}, {}) IN
+  IF \E m \in cone : s.def[m].k = "lhs" /\ HasMemo(s.def[m].recipe) THEN "C20"
+  ELSE IF \E m \in cone : s.def[m].k = "expert" THEN "C14"
+  ELSE "C01"
 
 \* C01 (and the single-snapshot half of C07)
 ObsCorrect(s) ==
@@ -185,46 +207,6 @@ HeightExact(s) ==
           \A n \in ConeOf(s, ObservedNodes(s, LinkedObs(s)), {}) : RefHeight(s, n) <= s.ahhMax /\ s.height[n] = RefHeight(s, n)
 
 ---------------------------------------------------------------------------
-(* C12: ownership.  Strong references implied by a state; Retained = reachable from the roots  *)
-(* (Rc semantics; the only cycle, var node <-> Var, is a root until break_rc_cycle).           *)
-ValRefs(v) == IF Tag(v) = "n" THEN {v[2]} ELSE {}
-\* nodes a bind closure names: it owns clones of their handles
-RECURSIVE RecipeRefs(_)
-RecipeRefs(rc) ==
-  CASE rc.r = "pick" -> SeqSet(rc.alts)
-    [] rc.r \in {"map", "chain"} -> {rc.over}
-    [] rc.r = "alt" -> UNION {RecipeRefs(rc.alts[i]) : i \in 1..Len(rc.alts)}
-    [] rc.r = "bind" -> {rc.over} \cup RecipeRefs(rc.inner)
-    [] rc.r = "junk" -> RecipeRefs(rc.pre) \cup RecipeRefs(rc.then)
-    [] rc.r = "leak" -> RecipeRefs(rc.then)
-    [] OTHER -> {}
-StrongOut(s, n) ==
-  LET d == s.def[n]
-      kids == CASE d.k \in {"var", "const"} -> {}
-                [] d.k = "lhs" -> {d.ins[1]} \cup (IF s.rhs[n] = 0 THEN {} ELSE {s.rhs[n]}) \cup RecipeRefs(d.recipe)
-                [] d.k = "main" -> {d.lc, s.def[d.lc].ins[1]} \cup (IF s.rhs[d.lc] = 0 THEN {} ELSE {s.rhs[d.lc]})
-                                   \cup RecipeRefs(s.def[d.lc].recipe)
-                [] d.k = "expert" -> {s.edges[n][i].child : i \in 1..Len(s.edges[n])}
-                [] OTHER -> SeqSet(d.ins)
-      ctlrefs == IF d.k = "map" /\ "ctl" \in DOMAIN d /\ d.ctl.mode = "sum" THEN SeqSet(d.ctl.ins) ELSE {}
-  IN kids \cup ctlrefs \cup ValRefs(s.val[n]) \cup ValRefs(s.cell[n]) \cup ValRefs(s.pend[n])
-           \cup (IF d.k = "const" THEN ValRefs(d.init) ELSE {})
-Roots(s) ==
-  s.handles
-  \cup {n \in 1..s.n : s.def[n].k = "var" /\ n \notin s.broken}
-  \cup {s.onode[o] : o \in {x \in 1..s.no : s.oclones[x] > 0 \/ x \in s.allObs}}
-  \cup {n \in 1..s.n : InHeap(s, n)}
-  \cup SeqSet(s.leaked)
-  \cup {s.memos[i].over : i \in {j \in 1..Len(s.memos) : s.memos[j].over # 0}}
-RECURSIVE Reach(_, _, _)
-Reach(s, todo, acc) ==
-  IF todo = {} THEN acc ELSE
-  LET n == CHOOSE x \in todo : TRUE
-      new == StrongOut(s, n) \ (acc \cup {n})
-  IN Reach(s, (todo \ {n}) \cup new, acc \cup {n})
-Retained(s) == Reach(s, Roots(s), {})
-Released(s) == (1..s.n) \ Retained(s)
----------------------------------------------------------------------------
 (* The spec action for one API action given as a record (recorded traces, scripted programs) *)
 Field(e, f, dflt) == IF f \in DOMAIN e THEN e[f] ELSE dflt
 RECURSIVE RunSteps(_)
@@ -248,6 +230,7 @@ ApplyRaw(s, e) ==
     [] e.a = "bind"     -> ApiBind(s, e["in"], e.recipe)
     [] e.a = "memo_new" -> ApiMemoNew(s, e.f, e.over)
     [] e.a = "xjoin"    -> ApiXJoin(s, e["in"])
+    [] e.a = "xcell"    -> ApiXCell(s, e["in"])
     [] e.a = "xsum"     -> ApiXSum(s, e.sel, e.ins)
     [] e.a = "cutoff"   -> ApiSetCutoff(s, e.n, [c |-> e.c])
     [] e.a = "write"    -> VarWrite(s, e.n, e.op, e.x)
@@ -272,6 +255,7 @@ HoldFor(a, r) ==
   CASE a.a = "var" -> HoldVar(r, r.n)
     [] a.a \in {"const", "map", "map2", "fold", "mapref", "mwo", "zip", "dependon", "bind"} -> Hold(r, r.n)
     [] a.a \in {"xjoin", "xsum"} -> Hold(r, r.n - 1)
+    [] a.a = "xcell" -> Hold(Hold(r, r.n - 1), r.n)     \* the harness also keeps the controlling node
     [] OTHER -> r
 
 ---------------------------------------------------------------------------
